@@ -13,6 +13,13 @@ mkdir -p "$bin"
 if ! go build "${ov[@]+"${ov[@]}"}" -o "$bin/c06" ./props/c06 2> "$bin/c06.buildlog"; then
   echo "HARNESS-ERROR build of C06 failed"; head -40 "$bin/c06.buildlog"; exit 2
 fi
+# a replay file written by the schedule part goes to the schedule part
+rp=""
+prev=""
+for a in "$@"; do [ "$prev" = "-replay" ] && rp="$a"; prev="$a"; done
+if [ -n "$rp" ] && grep -q '"Scenario"' "$rp" 2>/dev/null; then
+  exec "$ROOT/engine/run_a.sh" C06 "$tier" -pkg osmpbf:decode.go,scanner.go,decode_data.go -sub sched -- "$@"
+fi
 "$bin/c06" -tier "$tier" "$@"; rc1=$?
 [ $rc1 -ge 2 ] && exit $rc1
 case " $* " in *" -replay "*) exit $rc1;; esac
